@@ -370,4 +370,6 @@ def check(fx, rep, tier):
     check_keywords(fx, rep)
     check_idents(fx, rep)
     import_macro_rules(fx, rep)
+    import imports as _imp
+    _imp.layer(fx, rep, 'C15')
     return META
